@@ -132,7 +132,7 @@ Proof. cbn [ser_item]. destruct tag; reflexivity. Qed.
 Section Elt.
 Variables (l : lang) (tb : bytes) (ver cs : N).
 Hypothesis Hcs : cs_ok cs.
-Hypothesis Hwv : typed_wv_agree.
+Hypothesis Hwv : wv_premise l.
 Hypothesis Hdt : typed_datetime_agree.
 Let env := penv_of l tb ver cs.
 Let denv := mk_denv l tb.
